@@ -1,4 +1,7 @@
-// Package fakenet stands in for "net" in the rewritten copies of the repository's files.
+// Package fakenet stands in for "net" in the import-rewritten copies of the repository's files.
+// The same source is executed symbolically by symgo and compiled natively for replay, so the
+// environment model is identical in both worlds. Everything that leaves the proxy is recorded;
+// everything that comes in, and every fault, is scripted by the harness.
 package fakenet
 
 import (
@@ -7,6 +10,7 @@ import (
 	realnet "net"
 	"strconv"
 	"strings"
+	"time"
 )
 
 type Conn = realnet.Conn
@@ -14,10 +18,16 @@ type Addr = realnet.Addr
 type Listener = realnet.Listener
 type Error = realnet.Error
 
-// IP holds the textual form of the address (nil = no address), so that `ParseIP(s) != nil` keeps its meaning.
+// IP holds the textual form of the address (nil = no address), so that `ParseIP(s) != nil`
+// keeps its meaning.
 type IP []byte
 
-func (ip IP) String() string { return string(ip) }
+func (ip IP) String() string {
+	if ip == nil {
+		return "<nil>"
+	}
+	return string(ip)
+}
 
 type UDPAddr struct {
 	IP   IP
@@ -47,15 +57,86 @@ func (a *TCPAddr) String() string {
 	return JoinHostPort(string(a.IP), strconv.Itoa(a.Port))
 }
 
-// World records everything that leaves the proxy and scripts what comes in.
+// ---------------------------------------------------------------- the scripted world
+
+// Datagram is one UDP packet that left the proxy (or is to be delivered to it).
 type Datagram struct {
 	Local, Remote string
 	Payload       []byte
 }
 
+// Sent is the log of every UDP datagram written, in order.
 var Sent []Datagram
-var Hosts = map[string][]string{} // scripted DNS
-var IsIPLiteral = func(s string) bool { return realnet.ParseIP(s) != nil }
+
+// Hosts is the scripted name service (name -> addresses); LookupFail makes lookups of a name fail.
+var Hosts = map[string][]string{}
+var LookupFail = map[string]bool{}
+
+// IsIPLiteral decides what ParseIP accepts. The default accepts dotted IPv4 quads and
+// anything containing ':' made of hex digits, colons and dots.
+var IsIPLiteral = func(s string) bool { return isIPv4(s) || isIPv6(s) }
+
+// DialHook is called for every outbound TCP connection attempt.
+var DialHook = func(network, address string) (Conn, error) { return nil, errors.New("connection refused") }
+
+// Conns lists every TCP connection created by Dial / NewTCPConn, in order.
+var Conns []*TCPConn
+
+// Dials counts dial attempts per address.
+var Dials = map[string]int{}
+
+// UDPConns lists every UDP socket created by ListenUDP.
+var UDPConns []*UDPConn
+
+// Listeners lists every TCP listener.
+var Listeners []*TCPListener
+
+// Reset clears the world (harnesses call it first; natively state would leak between cases).
+func Reset() {
+	Sent = nil
+	Hosts = map[string][]string{}
+	LookupFail = map[string]bool{}
+	Conns = nil
+	Dials = map[string]int{}
+	UDPConns = nil
+	Listeners = nil
+	DialHook = func(network, address string) (Conn, error) { return nil, errors.New("connection refused") }
+}
+
+func isIPv4(s string) bool {
+	parts := strings.Split(s, ".")
+	if len(parts) != 4 {
+		return false
+	}
+	for _, p := range parts {
+		if len(p) == 0 || len(p) > 3 {
+			return false
+		}
+		n, err := strconv.Atoi(p)
+		if err != nil || n > 255 || (len(p) > 1 && p[0] == '0') {
+			return false
+		}
+		for i := 0; i < len(p); i++ {
+			if p[i] < '0' || p[i] > '9' {
+				return false
+			}
+		}
+	}
+	return true
+}
+
+func isIPv6(s string) bool {
+	if !strings.Contains(s, ":") || len(s) < 2 {
+		return false
+	}
+	for i := 0; i < len(s); i++ {
+		c := s[i]
+		if !(c >= '0' && c <= '9' || c >= 'a' && c <= 'f' || c >= 'A' && c <= 'F' || c == ':' || c == '.') {
+			return false
+		}
+	}
+	return true
+}
 
 func JoinHostPort(host, port string) string {
 	if strings.IndexByte(host, ':') >= 0 || strings.IndexByte(host, '%') >= 0 {
@@ -70,7 +151,10 @@ func SplitHostPort(hostport string) (host, port string, err error) {
 		return "", "", errors.New("missing port in address")
 	}
 	host, port = hostport[:i], hostport[i+1:]
-	if strings.HasPrefix(host, "[") && strings.HasSuffix(host, "]") {
+	if strings.HasPrefix(host, "[") {
+		if !strings.HasSuffix(host, "]") {
+			return "", "", errors.New("missing ']' in address")
+		}
 		host = host[1 : len(host)-1]
 	} else if strings.IndexByte(host, ':') >= 0 {
 		return "", "", errors.New("too many colons in address")
@@ -88,6 +172,9 @@ func ParseIP(s string) IP {
 func LookupIP(host string) ([]IP, error) {
 	if IsIPLiteral(host) {
 		return []IP{IP(host)}, nil
+	}
+	if LookupFail[host] {
+		return nil, fmt.Errorf("lookup %s: server misbehaving", host)
 	}
 	if ips, ok := Hosts[host]; ok && len(ips) > 0 {
 		r := make([]IP, 0, len(ips))
@@ -134,27 +221,48 @@ func ResolveTCPAddr(network, address string) (*TCPAddr, error) {
 	return &TCPAddr{IP: ip, Port: p}, nil
 }
 
+// ---------------------------------------------------------------- UDP
+
 type UDPConn struct {
-	local  *UDPAddr
-	closed bool
-	Inbox  chan Datagram
+	local     *UDPAddr
+	closed    bool
+	Inbox     chan Datagram
+	WriteFail bool
 }
 
 func ListenUDP(network string, laddr *UDPAddr) (*UDPConn, error) {
 	if laddr == nil {
 		laddr = &UDPAddr{}
 	}
-	return &UDPConn{local: laddr, Inbox: make(chan Datagram, 64)}, nil
+	c := &UDPConn{local: laddr, Inbox: make(chan Datagram, 64)}
+	UDPConns = append(UDPConns, c)
+	return c, nil
 }
 
 func (c *UDPConn) LocalAddr() Addr { return c.local }
-func (c *UDPConn) Close() error    { c.closed = true; return nil }
+func (c *UDPConn) Closed() bool    { return c.closed }
+func (c *UDPConn) Close() error {
+	if c.closed {
+		return errors.New("use of closed network connection")
+	}
+	c.closed = true
+	return nil
+}
 func (c *UDPConn) WriteToUDP(b []byte, addr *UDPAddr) (int, error) {
 	if c.closed {
 		return 0, errors.New("use of closed network connection")
 	}
+	if c.WriteFail {
+		return 0, errors.New("network is unreachable")
+	}
 	Sent = append(Sent, Datagram{Local: c.local.String(), Remote: addr.String(), Payload: append([]byte(nil), b...)})
 	return len(b), nil
+}
+func (c *UDPConn) WriteTo(b []byte, addr Addr) (int, error) {
+	if u, ok := addr.(*UDPAddr); ok {
+		return c.WriteToUDP(b, u)
+	}
+	return 0, errors.New("unsupported address type")
 }
 func (c *UDPConn) ReadFromUDP(b []byte) (int, *UDPAddr, error) {
 	d, ok := <-c.Inbox
@@ -165,13 +273,138 @@ func (c *UDPConn) ReadFromUDP(b []byte) (int, *UDPAddr, error) {
 	ip, p, _ := resolve(d.Remote)
 	return n, &UDPAddr{IP: ip, Port: p}, nil
 }
+func (c *UDPConn) SetDeadline(t time.Time) error      { return nil }
+func (c *UDPConn) SetReadDeadline(t time.Time) error  { return nil }
+func (c *UDPConn) SetWriteDeadline(t time.Time) error { return nil }
 
-// Dialer / listener hooks are scripted by the harness.
-var DialHook = func(network, address string) (Conn, error) { return nil, errors.New("connection refused") }
-var ListenHook = func(network, address string) (Listener, error) { return nil, errors.New("listen not scripted") }
+// Deliver hands a datagram to the socket as if it had arrived from `from`.
+func (c *UDPConn) Deliver(from string, payload []byte) {
+	c.Inbox <- Datagram{Local: c.local.String(), Remote: from, Payload: payload}
+}
 
-func Dial(network, address string) (Conn, error) { return DialHook(network, address) }
+// ---------------------------------------------------------------- TCP
+
+// TCPConn is a scripted stream connection. Bytes written by the proxy are logged per Write;
+// bytes for the proxy to read are queued in segments; writes can be made to fail.
+type TCPConn struct {
+	local, remote *TCPAddr
+	Written       [][]byte
+	FailWrites    int // the next FailWrites writes fail
+	WriteFault    func(c *TCPConn, b []byte) bool
+	closed        bool
+	Closes        int
+	inbox         chan []byte
+	pending       []byte
+	Name          string
+}
+
+// NewTCPConn creates a connection (inbound when handed to a listener, outbound when returned by DialHook).
+func NewTCPConn(local, remote string) *TCPConn {
+	lip, lp, _ := resolve(local)
+	rip, rp, _ := resolve(remote)
+	c := &TCPConn{local: &TCPAddr{IP: lip, Port: lp}, remote: &TCPAddr{IP: rip, Port: rp}, inbox: make(chan []byte, 64)}
+	Conns = append(Conns, c)
+	return c
+}
+
+func (c *TCPConn) LocalAddr() Addr  { return c.local }
+func (c *TCPConn) RemoteAddr() Addr { return c.remote }
+func (c *TCPConn) IsClosed() bool   { return c.closed }
+func (c *TCPConn) Close() error {
+	c.Closes++
+	if c.closed {
+		return errors.New("use of closed network connection")
+	}
+	c.closed = true
+	close(c.inbox)
+	return nil
+}
+func (c *TCPConn) Write(b []byte) (int, error) {
+	if c.closed {
+		return 0, errors.New("use of closed network connection")
+	}
+	if c.FailWrites > 0 {
+		c.FailWrites--
+		return 0, errors.New("broken pipe")
+	}
+	if c.WriteFault != nil && c.WriteFault(c, b) {
+		return 0, errors.New("connection reset by peer")
+	}
+	c.Written = append(c.Written, append([]byte(nil), b...))
+	return len(b), nil
+}
+
+// Feed queues one segment for the proxy to read.
+func (c *TCPConn) Feed(segment []byte) { c.inbox <- segment }
+
+// EOF closes the read side (peer closed the connection).
+func (c *TCPConn) EOF() {
+	if !c.closed {
+		c.closed = true
+		close(c.inbox)
+	}
+}
+
+var errEOF = realEOF()
+
+func (c *TCPConn) Read(b []byte) (int, error) {
+	if len(c.pending) == 0 {
+		seg, ok := <-c.inbox
+		if !ok {
+			return 0, errEOF
+		}
+		c.pending = seg
+	}
+	n := copy(b, c.pending)
+	c.pending = c.pending[n:]
+	return n, nil
+}
+func (c *TCPConn) SetDeadline(t time.Time) error      { return nil }
+func (c *TCPConn) SetReadDeadline(t time.Time) error  { return nil }
+func (c *TCPConn) SetWriteDeadline(t time.Time) error { return nil }
+
+func Dial(network, address string) (Conn, error) {
+	Dials[address]++
+	return DialHook(network, address)
+}
 func DialTCP(network string, laddr, raddr *TCPAddr) (Conn, error) {
+	Dials[raddr.String()]++
 	return DialHook(network, raddr.String())
 }
-func Listen(network, address string) (Listener, error) { return ListenHook(network, address) }
+func DialTimeout(network, address string, d time.Duration) (Conn, error) {
+	return Dial(network, address)
+}
+
+type TCPListener struct {
+	addr   *TCPAddr
+	queue  chan Conn
+	closed bool
+}
+
+func Listen(network, address string) (Listener, error) {
+	ip, p, err := resolve(address)
+	if err != nil {
+		return nil, err
+	}
+	l := &TCPListener{addr: &TCPAddr{IP: ip, Port: p}, queue: make(chan Conn, 16)}
+	Listeners = append(Listeners, l)
+	return l, nil
+}
+func (l *TCPListener) Accept() (Conn, error) {
+	c, ok := <-l.queue
+	if !ok {
+		return nil, errors.New("use of closed network connection")
+	}
+	return c, nil
+}
+func (l *TCPListener) Close() error {
+	if !l.closed {
+		l.closed = true
+		close(l.queue)
+	}
+	return nil
+}
+func (l *TCPListener) Addr() Addr { return l.addr }
+
+// Connect hands an inbound connection to the listener.
+func (l *TCPListener) Connect(c Conn) { l.queue <- c }
